@@ -83,6 +83,13 @@ _add("C19",
      "Trusted: the scripted tracker stands in for TrackerClient::run (same channel protocol); the real HTTP client is exercised only by C18 and the real-process layer.",
      level="fault_enumeration", assumptions=SIM_ASSUMPTIONS)
 
+_add("C06",
+     "self-differential and reference-list oracles over executions of the real Connection::recv_frame on an in-memory socket (all cuttings of short streams, adversarial and random cuttings of long ones), buffer-occupancy monitor at the decoder's wait point, and termination monitor on the real PeerHandler in the simulation",
+     "streams: valid sequences of all 11 message kinds interleaved with unknown ids (body 0..65535), truncated variants, single-field mutations (length +-1, id swap, huge length, random byte), pure garbage, fixed-size ids with wrong lengths followed by up to 300 kB, oversized headers followed by 200 kB. Cuttings: all 2^(n-1) for streams up to 9 (quick) / 12 (thorough) bytes, otherwise all-at-once, byte-by-byte, at/after/before every message boundary, after the length prefix, after the id byte, plus random ones. Per (stream, cutting): no panic; same frames and terminal class as all-at-once; for known lists the frames delivered after every write are exactly the messages wholly received (unknown skipped); bytes retained at every wait point <= 4+MAX_FRAME_SIZE. Handler part: 7 malformed/oversized/truncated cases x {incoming, dialled} x {whole, 1-, 3-byte writes}: KillReq within 1 s of virtual time. Distinct non-trivial = distinct streams + distinct handler cases.",
+     "Exploration with exhaustive cuttings for short streams: the decoder's result must not depend on segmentation for any of the enumerated cuttings, which covers every split position relative to length prefix, id byte and body.",
+     "Trusted: quiescence barrier = 1 ms sleep on the paused clock (ends only when the reader task is blocked). Message id 0x54 is excluded from 'unknown' ids.",
+     assumptions=SIM_ASSUMPTIONS)
+
 NOT_APPLICABLE = []
 
 HOOK_COMMITS = ['f4e11fff6207578681bfe159fde132435a75db6b', 'c80cd8e781736d9cf047ae63c4117d911e79b492', '36e923c803e32367e0b9567db19ed45c7e679e57', 'd4d0caac768fbc161be45a56b818f54b8f8544b7', '18ace6ea4c44e4f9b55cbb2adc1f6155c1036680']
